@@ -127,6 +127,15 @@ def run_case(c):
         wave = ex.stepper.Wave(D, L, N, dt, speed_of_sound=cs)(w0)
         outs["Wave"] = (wave, np.concatenate([np.sin(ph) * np.cos(om * dt) + 0.3 * np.cos(ph) * np.sin(om * dt),
                                              om * (-np.sin(ph) * np.sin(om * dt) + 0.3 * np.cos(ph) * np.cos(om * dt))]) )
+        # states whose dtype is not the session default (an integer-valued profile; in an x64 session also a float32 array): the result
+        # carries the SESSION's floating dtype
+        prof = np.round(2 * np.sin(ph)).astype(np.int32)
+        res["foreign"] = {}
+        for tag, arr in (("int32", jnp.asarray(prof)),) + ((("float32", jnp.asarray(np.sin(ph), dtype=jnp.float32)),) if str(default) == "float64" else ()):
+            for nm, st in (("Diffusion", ex.stepper.Diffusion(D, L, N, dt, diffusivity=nu)), ("Burgers", ex.stepper.Burgers(D, L, N, dt, single_channel=True, order=2))):
+                o = st(arr)
+                ref = st(jnp.asarray(np.asarray(arr), dtype=default))
+                res["foreign"][f"{nm}/{tag}"] = dict(dtype=str(o.dtype), dev=float(np.max(np.abs(np.asarray(o, dtype=np.float64) - np.asarray(ref, dtype=np.float64)))))
         for n, (got, want) in outs.items():
             o = np.asarray(got)
             res["out_dtypes"][n] = str(o.dtype)
